@@ -14,47 +14,47 @@ CHECKS = {
                   "(structural proofs, no bound): rejected iff too short / unsupported, otherwise exactly the addresses at the standard "
                   "header positions, 12-bit VLAN id, VLAN 0 folded, never a panic. The model is tied to the code by running both on the "
                   "same generated inputs on every run; an independent reference dissector is the failing-input oracle.",
-             technique="Coq proof over a Gallina model of payload.rs + executed model/implementation correspondence", ref="4 (C19)"),
+             technique="Coq proof over a Gallina model of payload.rs + executed model/implementation correspondence", ref="5 (C19)"),
  "C03": dict(text="Theorems C03_* (Properties/C03.v): for EVERY history of deliveries and ticks (induction over the history, no length bound) the "
                   "three-register window of a key slot accepts exactly the deliveries whose counter exceeds every counter accepted before the "
                   "tick preceding the most recent tick (history-only reference), a counter dies for good two ticks after something at least as "
                   "new was accepted, newer-than-seen is always accepted; lifted to CryptoCore.decrypt / every_second / rotate_key. Tied to the "
                   "code by running real CryptoCore pairs and the extracted model on the same histories each run; the history-only reference "
                   "evaluated on the real accept/reject outcomes is the failing-input oracle. Node-level housekeeping tick is covered by the C08/C10 node model.",
-             technique="Coq proof (invariant by induction over histories) + executed model/implementation correspondence", ref="4 (C03)"),
+             technique="Coq proof (invariant by induction over histories) + executed model/implementation correspondence", ref="5 (C03)"),
  "C11": dict(text="Theorems C11_* (Properties/C11.v): Range::matches equals the bit-by-bit prefix specification for every byte string and every "
                   "prefix 0..255 (byte-level facts by an in-kernel sweep of all 65536 byte pairs lifted with forallb_forall, the rest by induction); an "
                   "uncached lookup returns a claim in the table that matches with maximal prefix length and None iff none matches; the cached decision "
                   "expires no later than now+switch timeout and no later than its claim; the sweep and peer removal leave nothing stale. Tied to the "
                   "code by the executed correspondence on ClaimTable operation sequences; failing-input oracles: bit-by-bit matcher and a history-based "
                   "table reference. The node-level clause (router drops and counts, switch/hub flood) is part of the node model (C10).",
-             technique="Coq proof (list induction + finite in-kernel sweep) + executed model/implementation correspondence", ref="4 (C11)"),
+             technique="Coq proof (list induction + finite in-kernel sweep) + executed model/implementation correspondence", ref="5 (C11)"),
  "C12": dict(text="Theorems C12_* (Properties/C12.v): after set_claims the ranges attributed to the peer are exactly the announced ones with fresh expiry, "
                   "other peers' live entries untouched, cached decisions of the peer gone if anything was dropped; unrefreshed claims vanish at the "
                   "first sweep after expiry; remove_claims leaves no claim or cached/learned address for the peer - for every table state, list and "
                   "time > 0 (induction over the claim vector, including swap_remove). Tied to the code by the executed correspondence; oracle: "
                   "history-based reference after every step. Node-level removal paths are covered by the node model.",
-             technique="Coq proof (invariant of the set_claims loop by induction) + executed model/implementation correspondence", ref="4 (C12)"),
+             technique="Coq proof (invariant of the set_claims loop by induction) + executed model/implementation correspondence", ref="5 (C12)"),
  "C17": dict(text="Theorems C17_* (Properties/C17.v), with SHA-512 modelled bit-exact in Gallina (no hash oracle): base-62 text round trip to the "
                   "leading-zero-stripped string (canonical numerals, uniqueness), masking involution for every length incl. counter wrap, "
                   "encrypt/decrypt of the body, full peer-list round trip for every key, hour, list and admissible age limit (premise: not all of "
                   "the first six masked bytes are zero, probability 2^-48), scanner finds an embedded beacon where its two find calls hit, sanitised "
                   "text always decodes and all slices are in range (no panic site). 'Different password is ignored' is exercised, not proved. Tied to "
                   "the code by the executed correspondence (real BeaconSerializer vs extracted model incl. SHA-512).",
-             technique="Coq proof (numeral-system lemmas, list induction, bit-exact SHA-512 model) + executed correspondence", ref="4 (C17)"),
+             technique="Coq proof (numeral-system lemmas, list induction, bit-exact SHA-512 model) + executed correspondence", ref="5 (C17)"),
  "C18": dict(text="Theorems C18_* (Properties/C18.v): every 32-byte key printed with to_base62 is parsed back to the same bytes (leading zeros "
                   "included), parsing is total and always yields 32 bytes; with PBKDF2/Ed25519 as oracle functions the password-only configuration "
                   "selects (kdf pw, pk_of (kdf pw)) trusting exactly its own key, the printed pair is accepted as private/public/trusted key, and two "
                   "password-only nodes trust each other iff the derived public keys are equal. Determinism of ring's PBKDF2/Ed25519 itself is exercised "
                   "(derive twice, two instances), not proved.",
-             technique="Coq proof (base-62 canonical-numeral argument) + executed correspondence; determinism of ring by run-twice", ref="4 (C18)"),
+             technique="Coq proof (base-62 canonical-numeral argument) + executed correspondence; determinism of ring by run-twice", ref="5 (C18)"),
  "C06": dict(text="Theorems C06_* (Properties/C06.v) about select_algorithm as written (own-list order, first match in the peer list, minimum of "
                   "the two speeds, maximum with id tie-break): plain iff both allow it; clean failure iff not both plain and no common cipher; "
                   "otherwise a common cipher whose slower side is fastest; both ends obtain the same result and the result is invariant under any "
                   "permutation of either list (uniqueness of the maximum under a strict total order on duplicate-free lists); an edited list "
                   "is an edited signed message and is dropped without touching the handshake. Tied to the code by real handshakes between "
                   "PeerCrypto objects with prescribed speeds vs the extracted model (all 1024 list pairs x speed grid x both initiators).",
-             technique="Coq proof (order-independence of a maximum, list induction) + executed correspondence through real handshakes", ref="4 (C06)"),
+             technique="Coq proof (order-independence of a maximum, list induction) + executed correspondence through real handshakes", ref="5 (C06)"),
  "C07": dict(text="Theorem C07_send_key_held: for EVERY schedule (list of arbitrary length, by induction) of rotation cycles at either end, delivery "
                   "of ANY rotation message ever sent (loss, duplication, reordering, delay), window ticks and payload sealing, starting right after any "
                   "handshake, the key each end currently seals with is held by the peer under that key id with identical key material, and the "
@@ -63,7 +63,7 @@ CHECKS = {
                   "following cycle, progress by one key id per delivered message, cycle exactly every 120th tick. Tied to the code by real "
                   "PeerCrypto pairs run against the extracted model on exhaustive (depth 6/8) and random 100+-cycle schedules with a probe in both "
                   "directions after every step.",
-             technique="Coq proof (inductive invariant over all schedules, symbolic ECDH) + executed correspondence with probes after every step", ref="4 (C07)"),
+             technique="Coq proof (inductive invariant over all schedules, symbolic ECDH) + executed correspondence with probes after every step", ref="5 (C07)"),
 
  "C01": dict(text="Theorems C01_* (Properties/C01.v): a message signed by a key outside the trusted list is rejected with the handshake object "
                   "unchanged and no reply; a handshake object completes, PeerCrypto reports Initialized, and a NODE gains a peer entry (for every "
@@ -72,69 +72,71 @@ CHECKS = {
                   "with no reply, also in sequences. PARTIAL: the liveness direction of 'peers exactly when each trusts the other' is decided by "
                   "the executed correspondence over all trust relations of up to 4 key pairs; signature unforgeability is the modelling decision "
                   "WBadInit/WInit. Known finding F11 (stale-buffer parse) is reported as KNOWN-FINDING.",
-             technique="Coq proof (case analysis of the handshake/PeerCrypto/node step functions) + executed correspondence at object and node level", ref="4 (C01)"),
+             technique="Coq proof (case analysis of the handshake/PeerCrypto/node step functions) + executed correspondence at object and node level", ref="5 (C01)"),
  "C02": dict(text="Theorems C02_* (Properties/C02.v), ideal AEAD: what one end seals the other opens byte-identical whenever it holds the key under "
                   "that id, the counter fits 56 bits and the window admits it (the nonce premise proved for every such counter); unless plain every "
                   "PeerCrypto emission is a core seal of (type::body); a datagram opens iff genuine seal under slot key and reconstructed nonce; "
                   "reflected, foreign-key, bit-flipped and truncated datagrams never open, are ordinary errors and leave the core untouched; the node "
                   "writes exactly the body of a DATA message. PARTIAL: absence of cleartext in real cipher output is checked on the real "
                   "datagrams by the correspondence run (all ciphers, every flip/truncation, reflection, 3-node cross-injection).",
-             technique="Coq proof over an ideal-AEAD model of CryptoCore/PeerCrypto + executed correspondence with the real ciphers", ref="4 (C02)"),
+             technique="Coq proof over an ideal-AEAD model of CryptoCore/PeerCrypto + executed correspondence with the real ciphers", ref="5 (C02)"),
  "C04": dict(text="Theorem C04_no_reuse (Properties/C04.v): for EVERY history (induction, any length below 2^95-2^48) of seals, opens, ticks and "
                   "rotations to fresh keys on a CryptoCore as CryptoCore::new creates it, no (key, nonce) pair is used twice and every nonce lies in "
                   "the sender's half; halves are disjoint and the two ends of a handshake take opposite halves; increment is +1 on the big-endian "
                   "value; a rotated-in key starts a fresh sequence; a counter beyond 56 bits makes the seal unopenable instead of wrapping. "
                   "Unpredictability of the start value and freshness of ECDH output are assumptions (trusted base). Tied to the code by counters "
                   "forced near every boundary and the seal log of the real core vs the model.",
-             technique="Coq proof (inductive invariant over all core histories, big-endian arithmetic) + executed correspondence incl. seal log", ref="4 (C04)"),
- "C05": dict(text="Theorems C05_* (Properties/C05.v), for every sequence of verified messages fed to a handshake attempt (= every loss/duplication/"
-                  "reordering): at most one completion, completion closes the attempt, roles (exactly the responder of the completed exchange sends "
-                  "the first rotation message), no unwrap panic, and the agreement ingredients (same ECDH secret, same cipher, opposite halves). "
-                  "PARTIAL: whole-protocol agreement for every interleaving and the liveness clause are decided by the executed correspondence: "
-                  "all delivery schedules to depth 5 (quick) / 7 (thorough) plus random ones on real InitState/PeerCrypto pairs vs the model, with "
-                  "cross-open, roles, payload and at-most-once oracles and a reliable phase.",
-             technique="Coq proof (induction over message sequences, case analysis of handle_init) + executed correspondence over delivery schedules", ref="4 (C05)"),
+             technique="Coq proof (inductive invariant over all core histories, big-endian arithmetic) + executed correspondence incl. seal log", ref="5 (C04)"),
+ "C05": dict(text="Theorem C05_lockstep_agreement (Properties/C05.v): for ALL node ids, salts, key pairs, trusted lists, cipher lists, payloads "
+                  "and random values, the loss-free ping-pong-peng exchange of two mutually trusting distinct nodes ends with both completed, each "
+                  "holding the other's payload, the same cipher, the same key under key id 0 and opposite nonce halves. For every sequence of "
+                  "verified messages fed to an attempt (= every loss/duplication/reordering): at most one completion, completion closes the "
+                  "attempt, roles, no unwrap panic. PARTIAL: agreement for every interleaving and the liveness clause are decided by the executed "
+                  "correspondence: all delivery schedules to depth 5 (quick) / 7 (thorough), random and retry-horizon schedules on real "
+                  "InitState/PeerCrypto pairs, node-level total / one-way loss followed by reliable delivery, with cross-open, roles, payload, "
+                  "at-most-once and reconnection oracles.",
+             technique="Coq proof (symbolic execution of the three handshake steps for all parameters; induction over message sequences) + executed correspondence over delivery schedules", ref="5 (C05)"),
  "C08": dict(text="Theorems C08_* (Properties/C08.v): for every connection object at every stage and every node state (unknown / pending / "
                   "established source), an unverifiable datagram yields an ordinary error - never the Panic result - leaves peers, pending "
                   "handshakes, addresses, table and schedule unchanged and emits nothing, also for every sequence; decrypt, Ethernet and IP "
                   "dissection have no panic result for any input. Tied to the code by every length 0..80 x first byte x receiver state plus "
                   "mutations of genuine datagrams, run on the real node (catch_unwind, state dump equality) and the model.",
-             technique="Coq proof (case analysis, induction over datagram sequences) + executed correspondence with state-dump oracle", ref="4 (C08)"),
+             technique="Coq proof (case analysis, induction over datagram sequences) + executed correspondence with state-dump oracle", ref="5 (C08)"),
  "C09": dict(text="Theorems C09_* (Properties/C09.v): forged datagrams leave no trace; a replayed genuine handshake message from an established "
                   "peer's address leaves the peer entry, routes and own addresses unchanged (after the fix of F8) and reaping the pending object it "
                   "creates never touches peers or routes; replayed data dies by the C03 window, a re-delivered rotation message changes nothing. "
                   "PARTIAL: the end-to-end 'payload keeps flowing' statement is decided by the correspondence (every captured datagram re-injected at "
                   "several offsets from 3 source choices, then a 400 s probe phase on the real nodes vs the model).",
-             technique="Coq proof (node step case analysis + C03/C07 invariants) + executed correspondence with re-injection schedules", ref="4 (C09)"),
+             technique="Coq proof (node step case analysis + C03/C07 invariants) + executed correspondence with re-injection schedules", ref="5 (C09)"),
  "C10": dict(text="Theorems C10_* (Properties/C10.v) for every node state and input: an interface read causes only datagrams, each to an established "
                   "peer; a DATA message from a peer causes at most one interface write of exactly its body and no datagram (no relaying); unknown "
                   "destination in router mode is dropped and counted; unverifiable datagrams cause nothing; sealed bodies arrive byte-identical. "
                   "PARTIAL: mesh-wide exactly-once conservation is decided by the correspondence on 2-5 node meshes with a conservation oracle.",
-             technique="Coq proof (case analysis of the node step function) + executed correspondence on meshes with conservation oracle", ref="4 (C10)"),
+             technique="Coq proof (case analysis of the node step function) + executed correspondence on meshes with conservation oracle", ref="5 (C10)"),
  "C13": dict(text="Theorems C13_* (Properties/C13.v): in learning mode a DATA frame from peer P with source key S (VLAN, MAC) makes P the entry for S "
                   "with the switch timeout, every other key and all claims unchanged; hub/router leave the table untouched; a learned key resolves "
                   "to its peer; housekeeping removes exactly the expired entries; a disconnecting peer takes its entries along; the key contains the "
                   "12-bit VLAN id (priority tags fold to untagged: C19). Tied to the code by node-level runs vs a per-VLAN reference switch table.",
-             technique="Coq proof (table lemmas + node step case analysis) + executed correspondence with reference switch table", ref="4 (C13)"),
+             technique="Coq proof (table lemmas + node step case analysis) + executed correspondence with reference switch table", ref="5 (C13)"),
  "C14": dict(text="Theorems C14_* (Properties/C14.v): closure - two nodes joined by a path of k+1 connections are directly connected after k "
                   "peer-exchange rounds (induction on k, any graph); a handshake message carrying the node's own id is rejected at every stage with "
                   "no state change and no reply (after the fix of F13); addresses listed under the own id are adopted as own and not dialled. "
                   "PARTIAL: that real nodes perform the exchange step within the interval, also behind NATs, is decided by the correspondence over "
                   "all connected bootstrap graphs of 2-4 nodes, sampled 5-node graphs, NAT and self-dial scenarios.",
-             technique="Coq proof (induction over exchange rounds; handshake case analysis) + executed correspondence over bootstrap graphs", ref="4 (C14)"),
+             technique="Coq proof (induction over exchange rounds; handshake case analysis) + executed correspondence over bootstrap graphs", ref="5 (C14)"),
  "C15": dict(text="Theorems C15_* (Properties/C15.v): for EVERY u16 peer-timeout/keepalive and every non-empty multiset of advertised timeouts the "
                   "scheduled announcement delay is at most 1 s or strictly below every advertised timeout (after the fix of F7); a peer whose timeout "
                   "passed is removed at the next housekeeping tick with all claims and learned entries and re-dialled; the reconnect back-off stays "
                   "within 1..3600 s for any number of failures. PARTIAL: 'no healthy peer is ever timed out in a stable mesh' is decided by the "
                   "correspondence on heterogeneous meshes over the timeout grid, silence and 48 h back-off scenarios.",
-             technique="Coq proof (saturating u16 arithmetic, list minimum, fold over expired peers) + executed correspondence on meshes", ref="4 (C15)"),
- "C16": dict(text="Theorems C16_* (Properties/C16.v): rotation and handshake messages decode to exactly what was encoded (all stages, optional "
-                  "parts, trailing bytes), unknown handshake parts are skipped; decoders are total Gallina functions (structural/fuel bounded by "
-                  "input length). PARTIAL: NodeInfo round trip (seven-address normalisation) and totality of the REAL decoders (no panic, no hang, "
-                  "no oversized allocation) are decided by the correspondence on round trips, mutated encodings and random bytes incl. TLV lengths "
-                  "near 0xffff.",
-             technique="Coq proof (byte-level TLV lemmas, list induction) + executed correspondence on arbitrary bytes", ref="4 (C16)"),
-
+             technique="Coq proof (saturating u16 arithmetic, list minimum, fold over expired peers) + executed correspondence on meshes", ref="5 (C15)"),
+ "C16": dict(text="Theorems C16_* (Properties/C16.v): node information decodes to exactly what was encoded up to the format's normalisation (seven "
+                  "addresses per family and entry, IPv6 first) for every well-formed value and any trailing bytes; rotation and handshake messages "
+                  "round-trip (all stages, optional parts, trailing bytes); unknown parts of node information and handshake messages are skipped; "
+                  "the decoders are total Gallina functions without a panic result. PARTIAL: that the REAL decoders never panic, hang or "
+                  "over-allocate is decided by the correspondence on round trips, mutated encodings, declared-length boundaries of every part tag "
+                  "(0..0xffff), signature-length sweep and random bytes.",
+             technique="Coq proof (byte-level TLV lemmas, list induction, bit-flag sweep) + executed correspondence on arbitrary bytes", ref="5 (C16)"),
  "C20": dict(text="Theorems C20_* (Properties/C20.v) over records modelling Config/ConfigFile/Args field by field: each of the 25 scalar settings of "
                   "the effective configuration is the command-line value if given, else the file value, else the documented default; the four "
                   "switches are one-way; peers, claims, advertised addresses and trusted keys are file entries followed by command-line entries; "
@@ -142,7 +144,7 @@ CHECKS = {
                   "identity apart from daemonize; prefix 0..32 gives exactly that many leading one bits (/24 by default), above 32 an error, never a "
                   "panic (after the fix of F12). Tied to the code by rendering every case as YAML text and argv, parsing with serde_yaml/structopt, "
                   "merging and dumping the real Config (incl. a YAML round trip) vs the extracted model; oracle = the documented rule.",
-             technique="Coq proof (record-field case analysis, fold lemmas for the hook map, 33-value sweep) + executed correspondence through the real parsers", ref="4 (C20)"),
+             technique="Coq proof (record-field case analysis, fold lemmas for the hook map, 33-value sweep) + executed correspondence through the real parsers", ref="5 (C20)"),
 }
 NA_REASON = "check not built yet in this revision of /verif (planned, see DESIGN.md section 4); not claimed"
 def main():
